@@ -18,6 +18,23 @@ VERIF = os.path.dirname(os.path.dirname(os.path.abspath(__file__)))
 REPO = os.environ.get("VERIF_REPO", "/repo")
 
 
+import contextlib
+
+
+@contextlib.contextmanager
+def default_dtype(dtype):
+    """run a block with another torch default dtype.  The checks run with float64 as default (as `torchtree --dtype float64`, the CLI's
+    default, does); obligations about tensors the code allocates WITHOUT a dtype re-run their scenario under torch's own default float32
+    with float64 inputs (the environment of a library user who did not change the default)."""
+    import torch
+    old = torch.get_default_dtype()
+    torch.set_default_dtype(dtype)
+    try:
+        yield
+    finally:
+        torch.set_default_dtype(old)
+
+
 class Refuted(Exception):
     """obligation refuted by the verifier. witness: JSON-able; replay: dict describing how
     to re-run on the real code (module, function, args) or None"""
